@@ -68,6 +68,9 @@ class Stats(object):
             self.ok += 1
         for l in set(ctx.labels):
             self.labels[l] = self.labels.get(l, 0) + 1
+            if l.startswith("excluded:"):
+                # a case that was checked except for the part lying in a known-finding class
+                self.excluded[l[9:]] = self.excluded.get(l[9:], 0) + 1
         if ctx.nontrivial and outcome in ("ok", "violation"):
             h = core.case_hash(case)
             if h not in self.nt_hashes:
